@@ -117,7 +117,8 @@ def check(drv, pid, tier, seed):
     os.makedirs(outdir)
     count = cfg[tier if tier in ('quick', 'thorough') else 'quick']
     tg = time.time()
-    rc, out = drv.run([drv.HARNESS_BIN, 'gen', pid, '-seed', str(seed), '-tier', tier, '-out', outdir, '-count', str(count)],
+    harness_bin = drv.HARNESS_RACE_BIN if cfg.get('race') else drv.HARNESS_BIN
+    rc, out = drv.run([harness_bin, 'gen', pid, '-seed', str(seed), '-tier', tier, '-out', outdir, '-count', str(count)],
                       env=drv.GOENV, timeout=3000)
     gen_s = round(time.time() - tg, 1)
     if rc != 0:
